@@ -194,6 +194,12 @@ def mixed_version_function_cases():
             else:
                 r = list(f(a))[0]
             out.append(B.Case({"a": a, "c": c}, {"r": op17.add(r, top)}, False, {"mixed_versions": f"{where}/{tag}"}))
+            if where in ("direct", "nested"):
+                # ... and afterwards the SAME call built into a model of its own (nothing newer around it): the definition is the one
+                # written in the body, not what the earlier build converted it to (a function's cached body must not be overwritten)
+                again = B.Case({"a": a, "c": c}, {"r": r}, False, {"after_mixed_build": f"{where}/{tag}"})
+                again.pre = ({"a": a, "c": c}, {"r": op17.add(r, top)}, False)
+                out.append(again)
     return out
 
 
@@ -208,7 +214,8 @@ def run(run: Run) -> int:
     cases += nested_varying_cases()
     for c in mixed_version_function_cases():
         B.run_impl(c)
-        c.coq = None
+        if c.meta.get("mixed_versions"):
+            c.coq = None
         cases.append(c)
     mism = B.correspondence(run, "c14", cases)
     nprng = np.random.RandomState(run.seed)
@@ -247,7 +254,7 @@ def run(run: Run) -> int:
             p = c01.semantic_oracle(c, nprng)
             if p:
                 probs.append(p)
-        elif c.meta.get("mixed_versions"):
+        elif c.meta.get("mixed_versions") or c.meta.get("after_mixed_build"):
             probs.append(f"mixed-version program with functions does not build: {c.impl}: {str(c.exc)[:160]}")
         elif varying and type(c.exc).__name__ != "RuntimeError" and c.impl in ("ERR RuntimeError",) is False and not c.impl.startswith("ERR "):
             probs.append("varying bodies not rejected")
